@@ -1,0 +1,7 @@
+//go:build !verif
+
+package ast
+
+// verifTrace is the disabled form of the verification hook of verif_trace.go: an empty function the
+// compiler inlines away, so the calls at the head of the mutators cost nothing in ordinary builds.
+func verifTrace(op string, n *BaseNode, self, a, b Node) {}
